@@ -29,6 +29,11 @@ def forget_crate(target_dir):
     import glob
     for fp in glob.glob(os.path.join(target_dir, '**', '.fingerprint', 'noulith-*'), recursive=True):
         shutil.rmtree(fp, ignore_errors=True)
+    # the toolchain Kani ships uses cargo's newer layout: <profile>/build/<crate>/<hash>/{fingerprint,out}
+    for fp in glob.glob(os.path.join(target_dir, '**', 'build', 'noulith'), recursive=True):
+        shutil.rmtree(fp, ignore_errors=True)
+    for fp in glob.glob(os.path.join(target_dir, '**', 'incremental', 'noulith-*'), recursive=True):
+        shutil.rmtree(fp, ignore_errors=True)
 
 
 def build(repo, log=lambda *a: None):
